@@ -60,6 +60,15 @@ func (sfc *StructFieldsCopy) createFieldSnippet(f *types.Var) snippet.Snippet {
 
 	switch x := fieldType.(type) {
 	case *types.Named:
+		if _, ok := x.Underlying().(*types.Interface); ok {
+			// a value of a defined interface type is copied by assignment,
+			// like `error` and fields of unnamed interface types
+			return snippet.T(`out.@fieldName = in.@fieldName
+`, snippet.Args{
+				"fieldName": snippet.ID(f.Name()),
+			})
+		}
+
 		var fc *FieldContext
 
 		if sfc.FieldContext != nil {
